@@ -45,7 +45,7 @@ def run_case(case):
     out = J.Outcome()
     spec = case["spec"]
     m = M.RefEnum(spec)
-    rnd = random.Random(case["seed"])
+    rnd = J.case_rng(case)
     idxs = C.pick_idxs(m, rnd)
     sc = E.Script()
     modules = []
